@@ -236,6 +236,7 @@ func c04Run(req wrapReq, resp *drv.Response) error {
 	}
 	for _, c := range cases {
 		asg := data.Load(inst, req.K)
+		asg.VD = detachVD(asg.VD)
 		sel := "n/a"
 		switch c.Kind {
 		case "swap", "rotate":
@@ -294,7 +295,7 @@ func c04Run(req wrapReq, resp *drv.Response) error {
 				return fmt.Errorf("no verifier-data leaf %s", c.Path)
 			}
 		case "other":
-			asg.VD = data.Load(data.ByName(c.Other), req.K).VD
+			asg.VD = detachVD(data.Load(data.ByName(c.Other), req.K).VD)
 		case "random":
 			for _, lf := range data.Walk(&asg.VD) {
 				lf.Set(drv.RandBelow(rng, bigR))
@@ -345,6 +346,18 @@ func c04Run(req wrapReq, resp *drv.Response) error {
 		resp.Sample(map[string]any{"kind": c.Kind, "path": c.Path, "op": c.Op, "selected_by_a_query": sel, "outcome": out})
 	}
 	return nil
+}
+
+// detachVD copies a key into storage of its own, so that editing it can never write through a slice that a reader of the
+// repository may have kept (a reader that remembers keys must not see the harness's edits as its own).
+func detachVD(vd variables.VerifierOnlyCircuitData) variables.VerifierOnlyCircuitData {
+	out := vd
+	out.ConstantSigmasCap = make(variables.FriMerkleCap, len(vd.ConstantSigmasCap))
+	for i, x := range vd.ConstantSigmasCap {
+		out.ConstantSigmasCap[i] = new(big.Int).Set(engine.ToBig(x))
+	}
+	out.CircuitDigest = new(big.Int).Set(engine.ToBig(vd.CircuitDigest))
+	return out
 }
 
 // ---- C17: non-canonical encodings ----------------------------------------------------------------------------
